@@ -13,9 +13,12 @@ package main
 // the census / CPU measurement are process-wide.
 
 import (
+	"bytes"
 	"context"
+	"encoding/json"
 	"fmt"
 	"os"
+	"os/exec"
 	"runtime"
 	"sort"
 	"strings"
@@ -41,19 +44,23 @@ func init() {
 		Shard: 1, Par: 16,
 		Count: func(tier string) int { return len(c07cases(tier)) },
 		Run: func(out *rec.Out, idx int, rng *rec.Rng, tier string, stats map[string]int) {
+			if os.Getenv("C07_INNER") == "" {
+				c07guard(out, c07cases(tier)[idx], stats)
+				return
+			}
 			c07run(out, c07cases(tier)[idx], rng, stats)
 		},
 	}
 }
 
 type c07prog struct {
-	name    string
-	pts     int // cancellation points 0..pts (pts ≥ number of traces of the uncancelled run)
-	build   func(g *eng.Graph)
-	vars    map[string]any
-	signals []string // delivered in this order, one whenever the run is quiescent with nothing to answer
-	timer   bool     // runs on the mock clock; the policy advances it when nothing else can happen
-	results map[string]map[string]int
+	name     string
+	pts      int // cancellation points 0..pts (pts ≥ number of traces of the uncancelled run)
+	build    func(g *eng.Graph)
+	vars     map[string]any
+	signals  []string // delivered in this order, one whenever the run is quiescent with nothing to answer
+	timer    bool     // runs on the mock clock; the policy advances it when nothing else can happen
+	results  map[string]map[string]int
 	thorough bool // only in the thorough tier
 }
 
@@ -297,12 +304,97 @@ func c07chanClosed(ch <-chan struct{}) bool {
 
 // ---------------------------------------------------------------- one case
 
+// c07guard runs the case in a process of its own (this binary again, same arguments, C07_INNER=1): a panic in
+// an engine goroutine (e.g. `sync: WaitGroup is reused before previous Wait has returned` in the tracer's
+// termination helper) kills that process only and is reported as an observation of the case.
+func c07guard(out *rec.Out, c c07case, stats map[string]int) {
+	self, _ := os.Executable()
+	args := append([]string(nil), os.Args[1:]...)
+	inner := ""
+	for k := 0; k+1 < len(args); k++ {
+		if args[k] == "-stats" {
+			inner = args[k+1] + ".inner"
+			args[k+1] = inner
+		}
+	}
+	cmd := exec.Command(self, args...)
+	cmd.Env = append(os.Environ(), "C07_INNER=1")
+	var so, se bytes.Buffer
+	cmd.Stdout, cmd.Stderr = &so, &se
+	done := make(chan error, 1)
+	if err := cmd.Start(); err != nil {
+		out.Begin("c07", c.prog.name, c.i, c.rep)
+		out.Line("harness-error cannot start the case process: %v", err)
+		out.End()
+		return
+	}
+	go func() { done <- cmd.Wait() }()
+	var err error
+	select {
+	case err = <-done:
+	case <-time.After(90 * time.Second):
+		cmd.Process.Kill()
+		err = fmt.Errorf("timeout")
+	}
+	if inner != "" {
+		if b, e := os.ReadFile(inner); e == nil {
+			m := map[string]int{}
+			if json.Unmarshal(b, &m) == nil {
+				for k, v := range m {
+					stats[k] += v
+				}
+			}
+			os.Remove(inner)
+		}
+	}
+	if err == nil {
+		out.Flush()
+		os.Stdout.Write(so.Bytes())
+		return
+	}
+	// the case process died: say how
+	msg, frame := "exit:"+strings.ReplaceAll(err.Error(), " ", "_"), "-"
+	lines := strings.Split(se.String(), "\n")
+	for k, l := range lines {
+		if strings.HasPrefix(l, "panic: ") || strings.HasPrefix(l, "fatal error: ") {
+			msg = strings.ReplaceAll(strings.TrimSpace(l), " ", "_")
+			// topmost engine frame of the goroutine that panicked
+			for _, f := range lines[k+1:] {
+				if strings.HasPrefix(f, "\t") || f == "" {
+					if f == "" && frame != "-" {
+						break
+					}
+					continue
+				}
+				if strings.HasPrefix(f, "goroutine ") && frame != "-" {
+					break
+				}
+				if q := strings.LastIndexByte(f, '('); q > 0 {
+					if cn, ok := c07canon(f[:q]); ok && frame == "-" {
+						frame = cn
+					}
+				}
+			}
+			break
+		}
+	}
+	stats["cases"]++
+	stats["case_process_died"]++
+	out.Begin("c07", c.prog.name, c.i, c.rep)
+	out.Line("obs died at %d %s in=%s", c.i, msg, frame)
+	out.End()
+}
+
 func c07run(out *rec.Out, c c07case, rng *rec.Rng, stats map[string]int) {
 	p := c.prog
 	out.Begin("c07", p.name, c.i, c.rep)
 	defer out.End()
 	stats["cases"]++
 	stats["prog_"+p.name]++
+	if os.Getenv("C07_FAULT") == "panic" { // self-test of c07guard
+		go func() { var wg sync.WaitGroup; wg.Add(-1) }()
+		time.Sleep(200 * time.Millisecond)
+	}
 	if c.perturb > 0 {
 		ctl := sched.Install()
 		ctl.Perturb(rng.U64(), c.perturb)
